@@ -1,6 +1,7 @@
 (* C07 — A no-repeat mapping never leaves a repeatable key held.  Statements only. *)
 From TM Require ModifierSpec SpecTables.
 From TMGen Require Modifiers.
+From TM Require MonitorsSilent.
 From TM Require Import Base Mapper Monitors Trace MapperInv MapperProps MapperFire MapperNoRepeat.
 
 (* For EVERY accepted layout and EVERY history h: if the mapper acts on a press
@@ -19,6 +20,36 @@ Theorem C07_no_repeatable_key_held :
           In (Pressed t) (fst (fst (step is_action L (state_of is_action L h) (Pressed k))))).
 Proof. intros a L h k m H. apply norepeat_fire. apply for_layout_ok_wf. exact H. Qed.
 Print Assumptions C07_no_repeatable_key_held.
+
+(* The extracted step checker Monitors.check_step (applied by the mapper engine
+   to the outputs of the REAL mapper on every explored transition: specification
+   state before and after, keys physically held and keys held on the virtual
+   keyboard before the step, the input, the observed events) states the theorem
+   above on one observed press of a key that is not physically held and fires a
+   Disabled/Special mapping m (the specification's `fired`): K_C07_held (a
+   non-modifier is held on the virtual keyboard after the step), K_C07_pressed (a
+   non-modifier output key of m has no press event in the step); reported as
+   C07.held, C07.pressed.  It never fires on the model: for EVERY classification,
+   EVERY accepted layout, EVERY history h and EVERY next input i, applied to the
+   model's own events for i it returns no clause at all, in particular neither of
+   these two.  Runs on which these clauses fire:
+   MonitorsSilent.check_step_fires_every_clause. *)
+Theorem C07_checkers_silent_on_model :
+  forall (is_action : key -> bool) (L : layout) (h : list input) (i : input),
+    for_layout_ok L = true ->
+    let chk := check_step is_action L (state_of is_action L h) (state_of is_action L (h ++ [i]))
+                 (phys_of h) (held_all is_action L h) i
+                 (fst (fst (mstep is_action L (state_of is_action L h) i))) in
+    chk = [] /\ ~ In K_C07_held chk /\ ~ In K_C07_pressed chk.
+Proof.
+  intros a L h i H. cbn zeta.
+  assert (Hwf : wf_layout L) by (apply for_layout_ok_wf; exact H).
+  repeat split.
+  - apply MonitorsSilent.check_step_silent. exact Hwf.
+  - apply MonitorsSilent.check_step_clause_silent. exact Hwf.
+  - apply MonitorsSilent.check_step_clause_silent. exact Hwf.
+Qed.
+Print Assumptions C07_checkers_silent_on_model.
 
 (* "No later release event makes a key held again": from ANY state, releases and
    release-all emit only release events (same lemma as C02, clause 3). *)
